@@ -1128,6 +1128,10 @@ class Pipeline:
     def _validate_mapspec(self) -> None:
         """Validate the MapSpecs for all functions in the pipeline."""
         for f in self.functions:
+            if f.mapspec is not None and f.mapspec._is_generated and not f.mapspec.inputs:
+                # Autogenerated from the consumers known at the time: regenerate from all of them
+                f.mapspec = None
+        for f in self.functions:
             if f.mapspec and at_least_tuple(f.output_name) != f.mapspec.output_names:
                 msg = (
                     f"The output_name of the function `{f}` does not match the output_names"
